@@ -277,47 +277,6 @@ func checkC11(c *Ctx) {
 	c.Fn(shortFn(n2o))
 	pos := c.P.Pos(fn.Pos())
 
-	// R11.2 tables
-	pk, pv, _, ppos, ok1 := c.P.mapLiteral(pkgConfig, "pitchToVal")
-	vk, vv, _, vpos, ok2 := c.P.mapLiteral(pkgConfig, "valToPitch")
-	if !c.Require(ok1 && ok2, "R11.2", "anchor:config.pitchToVal/valToPitch", "pitch tables are not constant map literals") {
-		return
-	}
-	p2v := map[string]int64{}
-	for i, k := range pk {
-		n, _ := constant.Int64Val(pv[i])
-		p2v[constant.StringVal(k)] = n
-	}
-	v2p := map[int64]string{}
-	for i, k := range vk {
-		n, _ := constant.Int64Val(k)
-		v2p[n] = constant.StringVal(vv[i])
-	}
-	bad := ""
-	if len(p2v) != 12 || len(v2p) != 12 || len(pk) != 12 || len(vk) != 12 {
-		bad = fmt.Sprintf("tables must have 12 distinct entries each (pitchToVal %d/%d, valToPitch %d/%d)", len(p2v), len(pk), len(v2p), len(vk))
-	}
-	want := map[string]int64{"C": 0, "C#": 1, "D": 2, "D#": 3, "E": 4, "F": 5, "F#": 6, "G": 7, "G#": 8, "A": 9, "A#": 10, "B": 11}
-	for k, v := range p2v {
-		if w, ok := want[k]; !ok || w != v {
-			bad = fmt.Sprintf("pitchToVal[%q] = %d is not a note name of the chromatic scale at its semitone", k, v)
-		}
-		if v2p[v] != k {
-			bad = fmt.Sprintf("valToPitch[%d] = %q but pitchToVal[%q] = %d: the tables are not inverse", v, v2p[v], k, v)
-		}
-	}
-	for v := int64(0); v < 12; v++ {
-		if _, ok := v2p[v]; !ok {
-			bad = fmt.Sprintf("valToPitch has no entry for %d", v)
-		}
-	}
-	if bad != "" {
-		c.Bad("R11.2", "config.pitchToVal<->valToPitch", c.P.Pos(ppos), bad)
-	} else {
-		c.OK("R11.2", "config.pitchToVal<->valToPitch", c.P.Pos(ppos), "12 names <-> 0..11, inverse bijections, letters A-G with # on C,D,F,G,A only")
-	}
-	_ = vpos
-
 	// R11.3 pattern
 	pat, rpos, ok := c.P.globalRegexPattern(pkgConfig, "stringToNoteRegex")
 	if !c.Require(ok, "R11.3", "anchor:config.stringToNoteRegex", "stringToNoteRegex is not compiled from a constant pattern") {
@@ -400,8 +359,18 @@ func checkC11(c *Ctx) {
 	}
 	c.Check(lower, "R11.3", "config.stringToNoteRegex/any-letter-case", c.P.Pos(rpos), "lower-case spellings accepted", "lower-case note names are not accepted")
 
-	// paths of StringToNote
-	paths, err := Enumerate(fn, SymConfig{Prog: c.P, MaxDepth: 1, Collapse: true})
+	// paths of StringToNote; a helper that maps the pitch name to its value (string -> (number, found)) is kept as a call
+	helpers := map[*ssa.Function]bool{}
+	for _, b := range fn.Blocks {
+		for _, in := range b.Instrs {
+			if ci, ok := in.(ssa.CallInstruction); ok {
+				if h := ci.Common().StaticCallee(); h != nil && isPitchHelper(c.P, h) {
+					helpers[h] = true
+				}
+			}
+		}
+	}
+	paths, err := Enumerate(fn, SymConfig{Prog: c.P, MaxDepth: 1, Collapse: true, NoInline: helpers})
 	if !c.Require(err == nil, "R11.1", "config.StringToNote", fmt.Sprint(err)) {
 		return
 	}
@@ -419,11 +388,42 @@ func checkC11(c *Ctx) {
 	if !c.Require(len(success) >= 1, "R11.1", "config.StringToNote/success-path", "no success path") {
 		return
 	}
-	// R11.1 the table lookup
 	upper := map[string]bool{}
 	for _, s := range pitchLang {
 		upper[strings.ToUpper(s)] = true
 	}
+	// R11.2 the two directions of the name table, found where they are used: what StringToNote's success path consults
+	// for the pitch (a map, or a search helper) and what NoteToPitch indexes (a map or an array)
+	p2v, fwdDesc, ppos, ok1 := forwardPitchTable(c, success, helpers, upper)
+	v2p, bwdDesc, ok2 := backwardPitchTable(c, n2p)
+	if !c.Require(ok1 && ok2, "R11.2", "anchor:config.pitch-tables", "the pitch tables consulted by StringToNote / NoteToPitch are not constant tables: "+fwdDesc+" / "+bwdDesc) {
+		return
+	}
+	bad := ""
+	if len(p2v) != 12 || len(v2p) != 12 {
+		bad = fmt.Sprintf("tables must have 12 distinct entries each (%s: %d, %s: %d)", fwdDesc, len(p2v), bwdDesc, len(v2p))
+	}
+	want := map[string]int64{"C": 0, "C#": 1, "D": 2, "D#": 3, "E": 4, "F": 5, "F#": 6, "G": 7, "G#": 8, "A": 9, "A#": 10, "B": 11}
+	for _, k := range sortedKeys(p2v) {
+		v := p2v[k]
+		if w, ok := want[k]; !ok || w != v {
+			bad = fmt.Sprintf("%s gives %q = %d, which is not a note name of the chromatic scale at its semitone", fwdDesc, k, v)
+		}
+		if v2p[v] != k {
+			bad = fmt.Sprintf("%s gives %d = %q but %s gives %q = %d: the tables are not inverse", bwdDesc, v, v2p[v], fwdDesc, k, v)
+		}
+	}
+	for v := int64(0); v < 12; v++ {
+		if _, ok := v2p[v]; !ok {
+			bad = fmt.Sprintf("%s has no entry for %d", bwdDesc, v)
+		}
+	}
+	if bad != "" {
+		c.Bad("R11.2", "config.pitchToVal<->valToPitch", ppos, bad)
+	} else {
+		c.OK("R11.2", "config.pitchToVal<->valToPitch", ppos, "12 names <-> 0..11, inverse bijections, letters A-G with # on C,D,F,G,A only ("+fwdDesc+"; "+bwdDesc+")")
+	}
+	// R11.1 the table lookup
 	var unknown []string
 	for s := range upper {
 		if _, ok := p2v[s]; !ok {
@@ -432,33 +432,14 @@ func checkC11(c *Ctx) {
 	}
 	sort.Strings(unknown)
 	for _, p := range success {
-		checked := false
-		var lk *Term
-		for _, a := range p.Atoms {
-			cnd, taken := a.Cond, a.Taken
-			for cnd.Op == "unop" {
-				cnd, taken = cnd.Args[0], !taken
-			}
-			if cnd.Op == "lookupok" && cnd.Args[0].Any(func(t *Term) bool { return t.Op == "global" && t.Obj.Name() == "pitchToVal" }) && taken {
-				checked = true
-				lk = cnd
-			}
-		}
-		if lk == nil {
-			p.Ret[0].Walk(func(t *Term) bool {
-				if t.Op == "lookup" && t.Args[0].Any(func(x *Term) bool { return x.Op == "global" && x.Obj.Name() == "pitchToVal" }) {
-					lk = t
-				}
-				return true
-			})
-		}
+		lk, pitchLeaf, checked := pitchLookupOn(p, helpers)
 		key := "config.StringToNote/pitch-table-lookup"
 		if lk == nil {
-			c.Undec("R11.1", key, pos, "no lookup of pitchToVal on the success path")
+			c.Undec("R11.1", key, pos, "no lookup of the pitch table on the success path")
 			continue
 		}
 		// the key is ToUpper(match[1])
-		kstr := lk.Args[1].String()
+		kstr := lk.Args[len(lk.Args)-1].String()
 		if !strings.Contains(kstr, "strings.ToUpper") {
 			c.Bad("R11.1", key, pos, "the pitch is looked up without upper-casing: "+kstr)
 			continue
@@ -475,7 +456,7 @@ func checkC11(c *Ctx) {
 			c.Bad("R11.1", key, pos, fmt.Sprintf("pitchToVal[pitch] is an unchecked lookup and the pitch group matches %d upper-cased spellings that are not table keys (%v ...): such names silently become pitch 0 (a C), e.g. \"H4\", \"E#3\"", len(unknown), ex))
 		}
 		// R11.4 wrap-soundness of the returned value and its guards
-		ruleNoteFormula(c, p, lk, octs, p2v, pos)
+		ruleNoteFormula(c, p, pitchLeaf, octs, p2v, pos)
 	}
 
 	// R11.5 inverse functions
@@ -508,7 +489,7 @@ func maxKey(m map[int64]bool) int64 {
 	return r
 }
 
-func ruleNoteFormula(c *Ctx, p *Path, lk *Term, octs map[int64]bool, p2v map[string]int64, pos string) {
+func ruleNoteFormula(c *Ctx, p *Path, pitchLeaf *Term, octs map[int64]bool, p2v map[string]int64, pos string) {
 	key := "config.StringToNote/8-bit-range-check"
 	ret := p.Ret[0]
 	// leaves: the octave number and the table value
@@ -519,7 +500,6 @@ func ruleNoteFormula(c *Ctx, p *Path, lk *Term, octs map[int64]bool, p2v map[str
 		}
 		return true
 	})
-	pitchLeaf := &Term{Op: "lookup", Args: lk.Args, Aux: lk.Aux}
 	if octLeaf == nil || !strings.Contains(ret.String(), pitchLeaf.String()) {
 		c.Undec("R11.4", key, pos, "returned value is not a function of the parsed octave and the table value: "+ret.String())
 		return
@@ -588,11 +568,12 @@ func ruleInverseFunctions(c *Ctx, n2p, n2o *ssa.Function, v2p map[int64]string) 
 				env = map[string]int64{spec.fn.Params[0].Name(): n}
 			}
 			if spec.name == "NoteToPitch" {
-				if ret.Op != "lookup" || !ret.Args[0].Any(func(t *Term) bool { return t.Op == "global" && t.Obj.Name() == "valToPitch" }) {
-					bad = "does not look the name up in valToPitch: " + ret.String()
+				_, it := tableAccess(ret)
+				if it == nil {
+					bad = "does not look the name up in the name table: " + ret.String()
 					break
 				}
-				idx, ok := evalTerm(ret.Args[1], env)
+				idx, ok := evalTerm(it, env)
 				if !ok || idx != n%12 {
 					bad = fmt.Sprintf("note %d is looked up at index %d, expected %d", n, idx, n%12)
 				}
@@ -615,3 +596,192 @@ func ruleInverseFunctions(c *Ctx, n2p, n2o *ssa.Function, v2p map[int64]string) 
 }
 
 var _ = unicode.IsUpper
+
+// isPitchHelper: a function of this repository of the shape func(string) (number, bool).
+func isPitchHelper(p *Program, h *ssa.Function) bool {
+	if len(h.Blocks) == 0 || !p.OwnedFunc(h) || h.Signature.Recv() != nil {
+		return false
+	}
+	ps, rs := h.Signature.Params(), h.Signature.Results()
+	if ps.Len() != 1 || rs.Len() != 2 || !isBoolType(rs.At(1).Type()) {
+		return false
+	}
+	pb, ok1 := ps.At(0).Type().Underlying().(*types.Basic)
+	rb, ok2 := rs.At(0).Type().Underlying().(*types.Basic)
+	return ok1 && ok2 && pb.Info()&types.IsString != 0 && rb.Info()&types.IsInteger != 0
+}
+
+// tableAccess: t reads a package-level table: a map lookup or an element of an array/slice. Returns the table's variable
+// and the key/index term.
+func tableAccess(t *Term) (types.Object, *Term) {
+	var base, idx *Term
+	switch {
+	case (t.Op == "lookup" || t.Op == "lookupok") && len(t.Args) == 2:
+		base, idx = t.Args[0], t.Args[1]
+	case t.Op == "load" && len(t.Args) == 1 && t.Args[0].Op == "indexaddr" && len(t.Args[0].Args) == 2:
+		base, idx = t.Args[0].Args[0], t.Args[0].Args[1]
+	case t.Op == "index" && len(t.Args) == 2:
+		base, idx = t.Args[0], t.Args[1]
+	default:
+		return nil, nil
+	}
+	var g types.Object
+	base.Walk(func(x *Term) bool {
+		if x.Op == "global" && x.Obj != nil && g == nil {
+			g = x.Obj
+		}
+		return true
+	})
+	if g == nil {
+		return nil, nil
+	}
+	return g, idx
+}
+
+// pitchLookupOn: where the success path gets the pitch value from: the lookup term (last argument = the name), the term
+// that stands for the value in the returned formula, and whether a miss is tested.
+func pitchLookupOn(p *Path, helpers map[*ssa.Function]bool) (lk, leaf *Term, checked bool) {
+	for _, a := range p.Atoms {
+		cnd, taken := a.Cond, a.Taken
+		for cnd.Op == "unop" {
+			cnd, taken = cnd.Args[0], !taken
+		}
+		if !taken {
+			continue
+		}
+		if g, _ := tableAccess(cnd); cnd.Op == "lookupok" && g != nil {
+			return cnd, &Term{Op: "lookup", Args: cnd.Args, Aux: cnd.Aux}, true
+		}
+		if cnd.Op == "extract" && cnd.Aux == "1" && cnd.Args[0].Op == "call" && len(cnd.Args[0].Args) == 1 {
+			for h := range helpers {
+				if strings.HasPrefix(cnd.Args[0].Aux, h.String()+"#") || cnd.Args[0].Aux == h.String() {
+					return cnd.Args[0], &Term{Op: "extract", Args: cnd.Args, Aux: "0", Type: h.Signature.Results().At(0).Type()}, true
+				}
+			}
+		}
+	}
+	p.Ret[0].Walk(func(t *Term) bool {
+		if g, _ := tableAccess(t); t.Op == "lookup" && g != nil && lk == nil {
+			lk, leaf = t, t
+		}
+		return true
+	})
+	return lk, leaf, false
+}
+
+// forwardPitchTable: the partial function name -> semitone that StringToNote's success paths consult.
+func forwardPitchTable(c *Ctx, success []*Path, helpers map[*ssa.Function]bool, spellings map[string]bool) (map[string]int64, string, string, bool) {
+	var lk *Term
+	for _, p := range success {
+		if l, _, _ := pitchLookupOn(p, helpers); l != nil {
+			lk = l
+		}
+	}
+	if lk == nil {
+		return nil, "no pitch lookup on the success path", "", false
+	}
+	out := map[string]int64{}
+	if g, _ := tableAccess(lk); g != nil {
+		ks, vs, _, pos, ok := c.P.mapLiteral(g.Pkg().Path(), g.Name())
+		if !ok {
+			return nil, g.Name() + " is not a constant map literal", "", false
+		}
+		for i, k := range ks {
+			if k.Kind() != constant.String || vs[i] == nil {
+				return nil, g.Name() + " is not a map from names to numbers", "", false
+			}
+			n, _ := constant.Int64Val(vs[i])
+			if _, dup := out[constant.StringVal(k)]; dup {
+				return nil, g.Name() + " has a duplicate key", "", false
+			}
+			out[constant.StringVal(k)] = n
+		}
+		return out, g.Name(), c.P.Pos(pos), true
+	}
+	// a search helper: its result for every spelling the pattern admits (and the twelve names), by folding its conditions
+	// on the constant argument over the constant table it searches
+	var h *ssa.Function
+	for f := range helpers {
+		if strings.HasPrefix(lk.Aux, f.String()) {
+			h = f
+		}
+	}
+	if h == nil {
+		return nil, "pitch helper not resolved", "", false
+	}
+	c.Fn(shortFn(h))
+	names := map[string]bool{}
+	for s := range spellings {
+		names[s] = true
+	}
+	for _, s := range []string{"C", "C#", "D", "D#", "E", "F", "F#", "G", "G#", "A", "A#", "B"} {
+		names[s] = true
+	}
+	for _, name := range sortedKeys(names) {
+		pt := map[*ssa.Parameter]*Term{h.Params[0]: constTerm(constant.MakeString(name), h.Params[0].Type())}
+		paths, err := Enumerate(h, SymConfig{Prog: c.P, MaxDepth: 1, Collapse: true, MaxVisits: 40, ParamTerms: pt, MaxPaths: 256})
+		if err != nil {
+			return nil, h.Name() + ": " + err.Error(), "", false
+		}
+		var live []*Path
+		for _, p := range paths {
+			if p.End == "cut" {
+				continue
+			}
+			live = append(live, p)
+		}
+		c.Paths += len(paths)
+		if len(live) != 1 || live[0].End != "return" || len(live[0].Ret) != 2 {
+			return nil, fmt.Sprintf("%s(%q) does not fold to one outcome (%d paths)", h.Name(), name, len(live)), "", false
+		}
+		okV, isB := live[0].Ret[1].IsConst()
+		val, isI := live[0].Ret[0].StripConv().IsIntConst()
+		if !isB || okV.Kind() != constant.Bool {
+			return nil, fmt.Sprintf("%s(%q): the found flag is not decided by the table", h.Name(), name), "", false
+		}
+		if !constant.BoolVal(okV) {
+			continue
+		}
+		if !isI {
+			return nil, fmt.Sprintf("%s(%q): the value is not decided by the table", h.Name(), name), "", false
+		}
+		out[name] = val
+	}
+	return out, h.Name() + "()", c.P.Pos(h.Pos()), true
+}
+
+// backwardPitchTable: the table NoteToPitch reads, as semitone -> name.
+func backwardPitchTable(c *Ctx, n2p *ssa.Function) (map[int64]string, string, bool) {
+	paths, err := Enumerate(n2p, SymConfig{Prog: c.P, MaxDepth: 1, Collapse: true})
+	if err != nil || len(paths) != 1 || len(paths[0].Ret) != 1 {
+		return nil, "NoteToPitch is not a single straight-line function", false
+	}
+	g, _ := tableAccess(paths[0].Ret[0])
+	if g == nil {
+		return nil, "NoteToPitch does not read a package-level table: " + paths[0].Ret[0].String(), false
+	}
+	out := map[int64]string{}
+	if ks, vs, _, _, ok := c.P.mapLiteral(g.Pkg().Path(), g.Name()); ok {
+		for i, k := range ks {
+			n, exact := constant.Int64Val(k)
+			if !exact || vs[i] == nil || vs[i].Kind() != constant.String {
+				return nil, g.Name() + " is not a map from numbers to names", false
+			}
+			if _, dup := out[n]; dup {
+				return nil, g.Name() + " has a duplicate key", false
+			}
+			out[n] = constant.StringVal(vs[i])
+		}
+		return out, g.Name(), true
+	}
+	if vs, ok := c.P.listLiteral(g.Pkg().Path(), g.Name()); ok {
+		for i, v := range vs {
+			if v == nil || v.Kind() != constant.String {
+				return nil, g.Name() + " is not a list of names", false
+			}
+			out[int64(i)] = constant.StringVal(v)
+		}
+		return out, g.Name(), true
+	}
+	return nil, g.Name() + " is not a constant map or list literal", false
+}
